@@ -92,8 +92,35 @@ def run(prog: Program, res: Result, tier: str) -> None:
                          "m4's merge formula is still pinned by R1 and commutativity/identity in quick")
     # min/max combiners
     key = "merge:minmax"
-    if other.get("max") == "np.maximum(a['max'], b['max'])" and other.get("min") == "np.minimum(a['min'], b['min'])":
-        res.ok("R3", mrg, mrg.node, "merge takes elementwise maximum of maxima and minimum of minima", construct="minmax", key=key)
+    def guarded_extreme(txt: str | None, fld: str, comb: str) -> bool:
+        """np.where(a.count == 0, b.X, np.where(b.count == 0, a.X, comb(a.X, b.X))): an operand that has seen no sample holds a
+        placeholder 0, which is not an extreme of anything (F50)."""
+        if txt is None:
+            return False
+        try:
+            e = ast.parse(txt, mode="eval").body
+        except SyntaxError:
+            return False
+
+        def where(e_):
+            return e_.args if isinstance(e_, ast.Call) and dotted(e_.func) == "np.where" and len(e_.args) == 3 else None
+        w1 = where(e)
+        if w1 is None:
+            return False
+        w2 = where(w1[2])
+        if w2 is None:
+            return False
+        first = {norm(w1[0]): norm(w1[1]), norm(w2[0]): norm(w2[1])}
+        want = {"a['count'] == 0": f"b['{fld}']", "b['count'] == 0": f"a['{fld}']"}
+        both = norm(w2[2]) in (f"{comb}(a['{fld}'], b['{fld}'])", f"{comb}(b['{fld}'], a['{fld}'])")
+        return first == want and both
+    plain = other.get("max") == "np.maximum(a['max'], b['max'])" and other.get("min") == "np.minimum(a['min'], b['min'])"
+    if guarded_extreme(other.get("max"), "max", "np.maximum") and guarded_extreme(other.get("min"), "min", "np.minimum"):
+        res.ok("R3", mrg, mrg.node, "merge takes the elementwise maximum of maxima and minimum of minima, and an operand with count 0 contributes nothing "
+               "(the empty accumulator is the identity for the extremes too)", construct="minmax", key=key)
+    elif plain:
+        res.bad("R3", mrg, mrg.node, "merge takes np.maximum / np.minimum of the stored extremes unconditionally: an accumulator that never received data "
+                "holds 0 for both, so merging at split point 0 or n reports min 0 for all-positive data (max 0 for all-negative)", construct="minmax", key=key)
     else:
         res.bad("R3", mrg, mrg.node, f"merge combines min/max as {other}", construct="minmax", key=key)
 
@@ -202,6 +229,11 @@ def run(prog: Program, res: Result, tier: str) -> None:
 KF = "sigpyproc/core/kernels.py"
 SF = "sigpyproc/core/stats.py"
 MUTANTS = [
+    {"id": "c10-revert-F50", "file": "sigpyproc/core/kernels.py", "expect": "C10.R3",
+     "old": "    c[\"min\"][:] = np.where(\n        a[\"count\"] == 0,\n        b[\"min\"],\n        np.where(b[\"count\"] == 0, a[\"min\"], np.minimum(a[\"min\"], b[\"min\"])),\n    )\n",
+     "new": "    c[\"min\"][:] = np.minimum(a[\"min\"], b[\"min\"])\n"},
+    {"id": "c10-empty-side-swapped", "file": "sigpyproc/core/kernels.py", "expect": "C10.R3",
+     "old": "        a[\"count\"] == 0,\n        b[\"max\"],\n", "new": "        a[\"count\"] == 0,\n        a[\"max\"],\n"},
     {"id": "c10-revert-F42", "file": "sigpyproc/core/kernels.py", "expect": "C10.R2",
      "old": "        / (ncount**3)\n", "new": "        / (c[\"count\"] ** 3)\n"},
     {"id": "c10-m4-coeff", "file": KF, "expect": "C10.R1",
